@@ -1082,7 +1082,7 @@ fn e2_case(tier: Tier, kind: L, ctx: &mut Ctx) {
 		s.starts_with("renderer.sample_rate.") || s.starts_with("res.")
 	}
 	let cfg = Config { filter: filt, horizon: 3000, max_spin_rounds: 8, record_sites: true, ..Default::default() };
-	#[derive(Debug, Clone, Default)]
+	#[derive(Debug, Clone, Default, PartialEq)]
 	struct Obs {
 		added: bool,
 		init_rate: u32,
